@@ -159,6 +159,27 @@ def check(ctx, rep):
     rep.ob('input.past-end', 'nothing left to read raises Input past end unless the caller allows reading past the end',
            len(ipe) == 1 and any(f.pol and 'not c and (not allow_past_end)' in f.text for f in fli.facts(ipe[0])), '', ctx.where(ie))
     rep.ob('input.separator-agrees-with-writer', 'the separator INPUT # splits on is the one WRITE # joins with', sep == b',' and any("c in b',\\r'" in p_ for p_ in parts), '', ctx.where(ie))
+    # LINE INPUT #: like the ASCII program loader, end of file is "no text and no line terminator"; an empty line
+    # (terminator only) is a line
+    li = ctx.fn('pcbasic/basic/implementation.py:Implementation.line_input_')
+    flli = ctx.flow(li)
+    ipe2 = [r for r, c in ctx.raises_in(li) if c == 'INPUT_PAST_END']
+    atoms = set()
+    for r in ipe2:
+        for f in flli.facts(r):
+            if f.pol:
+                atoms |= set(x.strip() for x in f.text.split(' and '))
+    rep.ob('lineinput.eof-needs-no-terminator', 'LINE INPUT # raises Input past end only when neither text nor a line terminator was read',
+           len(ipe2) == 1 and {'not line', 'not cr'} <= atoms, 'raised under %s: an empty line in the file ends the reading' % sorted(atoms), ctx.where(li))
+    # swallowing the LF of CR LF must not disturb what read_line uses to recognise line ends: the previous /
+    # current character pair is saved before the LF is consumed and put back afterwards
+    save = [a for a in own_nodes(ro) if isinstance(a, ast.Assign) and norm(a.value) == '(self._previous, self._current)']
+    rest = [a for a in own_nodes(ro) if isinstance(a, ast.Assign) and norm(a.targets[0]) == '(self._previous, self._current)']
+    eat = [c for c in own_nodes(ro) if isinstance(c, ast.Expr) and norm(c.value) == 'self.read(1)']
+    rep.ob('lines.lf-swallowed-invisibly', 'read_one restores the previous/current characters after swallowing the LF of a CR LF pair',
+           len(save) == 1 and len(rest) == 1 and len(eat) == 1 and save[0].lineno < eat[0].lineno < rest[0].lineno
+           and [norm(e) for e in save[0].targets[0].elts] == [norm(e) for e in rest[0].value.elts],
+           'after CR LF the reader believes the last character was LF: a following empty line (CR LF CR LF) is not seen as a line end', ctx.where(ro))
     inp = ctx.fn(FILES + ':Files.input_')
     g = [c for c in _calls(inp, 'self.get')]
     modes = [ctx.fold(k.value) for c in g for k in c.keywords if k.arg == 'mode']
@@ -191,6 +212,10 @@ def variants(ctx):
            expect='write.numbers'),
         Va('input-splits-inside-quotes', 'break', DB,
            t('InputMixin.input_entry', lambda f: mu.replace_expr(f, mu.text_is("c in b',\\r' and (not quoted)"), "c in b',\\r'")), expect='input.entry-ends'),
+        Va('line-input-ends-at-empty-line', 'break', 'pcbasic/basic/implementation.py',
+           t('Implementation.line_input_', lambda f: mu.replace_expr(f, mu.text_is('not line and (not cr)'), 'not line')), expect='lineinput.eof'),
+        Va('lf-swallow-disturbs-line-ends', 'break', DF,
+           t('TextFile.read_one', lambda f: mu.remove_stmt(f, lambda st: isinstance(st, ast.Assign) and norm(st.targets[0]) == '(self._previous, self._current)')), expect='lines.lf-swallowed'),
         Va('quoted-strings-lose-linefeeds', 'break', DB,
            t('InputMixin.input_entry', lambda f: mu.replace_stmt(f, mu.text_is('c = self.read(1)'), 'c = self.read_one()')), expect='input.no-line-end-folding'),
         Va('input-keeps-nul', 'break', DB, t('InputMixin.input_entry', _keep_nul), expect='input.nul'),
